@@ -20,6 +20,7 @@ from black_it.samplers.r_sequence import RSequenceSampler
 from symx.core import Sym, lift
 from symx.memfs import H5Stub, JsonStub, MemFS, PandasStub, PickleStub, make_path_class
 from symx.npx import NPX, patched
+from symx.core import reraise_if_harness  # noqa: E402
 
 
 def _noprint(*a, **k):
@@ -115,7 +116,7 @@ def _plain(o):
 def _sched_fingerprint(s):
     try:
         return _pickle.dumps(s)
-    except Exception as e:  # noqa: BLE001
+    except Exception as e:  # noqa: BLE001  (an intentional probe of the library object with the real pickle: no reraise_if_harness here)
         return f"unpicklable: {type(e).__name__}: {e}"
 
 
